@@ -142,7 +142,9 @@ fn v_key(v: &V, out: &mut String) {
     match v {
         V::Null => out.push('n'),
         V::Int(i) => out.push_str(&format!("i{};", i)),
-        V::Real(r) => out.push_str(&format!("r{};", if *r == 0.0 { 0u64 } else { r.to_bits() })),
+        // numbers by value: a REAL that equals an INT has that INT's key
+        V::Real(r) if r.fract() == 0.0 && *r >= -9223372036854775808.0 && *r < 9223372036854775808.0 => out.push_str(&format!("i{};", *r as i64)),
+        V::Real(r) => out.push_str(&format!("r{};", r.to_bits())),
         V::Bool(b) => out.push_str(if *b { "T" } else { "F" }),
         V::Text(s) => out.push_str(&format!("t{:?};", s)),
         V::Ts(m) => out.push_str(&format!("s{};", m)),
